@@ -71,7 +71,7 @@ class RecordWorld(World):
             shape = [1]       # time-indexed access to scalar observations is not exercised (0-d time tensors)
         kind = rc.choice(KINDS)
         if prop == "C02":
-            kind = rc.choice(["f32", "f32", "f64", "param", "empty0", "uninit"])
+            kind = rc.choice(["f32", "f32", "f64", "param", "empty0", "uninit", "i64"])   # integer storage: time-indexed reads only
         cfg = {"dt": dt, "duration": duration, "inclusive": inclusive, "shape": shape, "kind": kind,
                "inplace_default": rc.random() < 0.5, "mode": "record"}
         vals = _Vals(ro)
@@ -1051,8 +1051,10 @@ class _RecordRun:
 
     def op_select(self, op):
         ctx, rt, m = self.ctx, self.rt, self.m
-        if not m.init or not m.dtype.is_floating_point:
+        if not m.init:
             return
+        if not m.dtype.is_floating_point:
+            ctx.probe("select_on_integer_storage")
         form = op["form"]
         time, tvals = self._times(op)
         tol, offset = op["tol"], op["offset"]
